@@ -694,6 +694,7 @@ def r11_7(chk, so):
     # the letter appended for a non-zero rotation[i][j] is "xyz"[j]: the assignment guarded by that entry adds exactly that letter at top level
     rot0 = ev.param_names[0]
     letters = {}
+    signs_ok, prefix_ok, twelfths = {}, {}, {}
     for e in ev.events:
         if e.kind != "assign" or e.value is None or not e.guards:
             continue
@@ -715,10 +716,55 @@ def r11_7(chk, so):
         top = {x[1] for x in tops if x[0] == "str" and len(x[1]) == 1 and x[1] in "xyzXYZabc"}
         if top:
             letters[ij] = top
+            # the sign written in front of the letter: '-' exactly when that entry is negative
+            its = [x for x in va[1]] if va and va[0] == "concat" else []
+            sg = its[-2].as_atom() if len(its) >= 2 else None
+            ent_key = P.atom(a).key()
+            okneg = False
+            if sg and sg[0] == "ite" and string_value(sg[2]) == "-" and string_value(sg[3]) == "+":
+                cc = sg[1].as_atom()
+                okneg = bool(cc and cc[0] == "lt" and cc[2] == P.const(0) and ent_key in cc[1].key()
+                             and cc[1].key() in (ent_key, f"int(round({ent_key}))", f"round({ent_key})", f"int({ent_key})"))
+            signs_ok[ij] = okneg
+    # the fraction in front of a row: nothing for a zero translation, str(t) otherwise (wherever in the function it is put together)
+    tr0 = ev.param_names[1]
+    for e in ev.events:
+        if e.kind != "assign" or e.value is None:
+            continue
+        for x in find_atoms(e.value, lambda t_: t_[0] == "ite" and t_[1].as_atom() and t_[1].as_atom()[0] == "eq" and tr0 in t_[1].key()):
+            cq = x[1].as_atom()
+            T = cq[1] if cq[2] == P.const(0) else cq[2] if cq[1] == P.const(0) else None
+            if T is None:
+                continue
+            rows_ = {int(t_[2][0].const_value()) for t_ in find_atoms(T, lambda t_: t_[0] == "sub" and t_[1].key() == tr0 and len(t_[2]) == 1
+                                                                      and t_[2][0].const_value() is not None)}
+            if len(rows_) != 1:
+                continue
+            k_ = rows_.pop()
+            good = string_value(x[2]) == "" and f"str({T})" in x[3].key()
+            prefix_ok[k_] = prefix_ok.get(k_, True) and good
+            dens = [t_ for t_ in find_atoms(T, lambda t_: t_[0] == "call" and call_name(t_) == ".limit_denominator" and t_[2])]
+            twelfths[k_] = bool(dens) and all(d_[2][0].const_value() is not None and d_[2][0].const_value() >= 12 for d_ in dens)
     okletters = len(letters) == 9 and all(v == {"xyz"[j]} for (i, j), v in letters.items())
     chk.ob("R11.7", SO, "encode_symm_str", "axis symbols are 'xyz' in column order and signs are '+'/'-'",
-           (okletters or (syms == "xyz" and not letters)) and {"+", "-", ","} <= lits,
+           okletters and {"+", "-", ","} <= lits,
            found=f"{syms} {sorted(lits)} letters per entry {sorted((k, sorted(v)) for k, v in letters.items())[:4]}")
+    chk.ob("R11.7", SO, "encode_symm_str", "the sign written before an axis letter is '-' exactly when that rotation entry is negative", len(signs_ok) == 9
+           and all(signs_ok.values()), fingerprint="encoder-sign", expected="'-' if entry < 0 else '+'", found=sorted(k for k, v in signs_ok.items() if not v)[:3])
+    chk.ob("R11.7", SO, "encode_symm_str", "a row starts with its translation as a fraction (twelfths representable) exactly when the translation is not zero",
+           len(prefix_ok) == 3 and all(prefix_ok.values()) and all(twelfths.get(i) for i in range(3)), fingerprint="encoder-fraction",
+           expected="str(t) if t != 0 else '' with t = Fraction(...).limit_denominator(12) % 1", found=f"fraction {prefix_ok}, denominators {twelfths}")
+    from .generic import list_appends
+    rows_out = None
+    from ..symex import obj_init as _oi
+    rv_ = _oi(ev.returns[-1].value) if ev.returns else None
+    ra_ = rv_.as_atom() if rv_ is not None else None
+    if ra_ and ra_[0] == "call" and len(ra_[2]) == 1 and rv_.key().startswith("','.join("):
+        arg_ = ra_[2][0]
+        its_ = seq_items(arg_)
+        rows_out = len(its_) if its_ is not None else len(list_appends(ev, arg_))
+    chk.ob("R11.7", SO, "encode_symm_str", "the string is the three rows joined by commas", rows_out == 3, fingerprint="encoder-rows",
+           expected="','.join of three rows", found=f"{rows_out} rows")
     # component i of the string is row i of the rotation: every rotation entry consulted while building component i has row index i
     rot = ev.param_names[0]
     roots = {rot, f"numpy.asarray({rot})", f"numpy.array({rot})"}
